@@ -649,7 +649,12 @@ func (d *bincDecDriver[T]) decLen() int {
 	if d.vs > 3 {
 		return int(d.vs - 4)
 	}
-	return int(d.decLenNumber())
+	v := d.decLenNumber()
+	if v > math.MaxInt {
+		// as an int it would be negative (taken for "no length"), and math.MinInt32 is containerLenNil
+		halt.errorf("length does not fit an int: %v", v)
+	}
+	return int(v)
 }
 
 func (d *bincDecDriver[T]) decLenNumber() (v uint64) {
